@@ -277,6 +277,12 @@ package meta
 
 // Every privilege a statement requires is checked against the database the statement names
 // (the request's database only when the statement names none); any denial makes the query fail.
+// The administrator shortcut (also the gate of the control, backup and log-store catalogue endpoints) is the admin
+// flag and nothing else.
+//@ func (*UserInfo).AuthorizeUnrestricted
+//@   requires u != nil
+//@   ensures [administrators_only] result == u.Admin
+//@   assigns nothing
 //@ func (*UserInfo).AuthorizeQuery
 //@   requires u != nil
 //@   ghost denied bool = false
